@@ -20,6 +20,7 @@ list of those places (`sites`) has to cover `Generated.ShapesClient.derefs`.
 -/
 import SigModel.Generated.ShapesClient
 import SigModel.Model.ShapesMedia
+import SigModel.Model.ShapesDeferred
 
 namespace SigModel.ShapesClient
 
@@ -112,11 +113,22 @@ structure DataShape where
   sdp : SdpClass
   deriving DecidableEq, Repr
 
+/-- `msg.Data` as the *recipient's* side decodes it again (`MessageServerMessageData`: `type` and the
+optional `chat` object with its `refresh` flag) - in `ClientSession.filterMessage` if the recipient has
+the permission `hide-displaynames`, in `ServerMessage.IsChatRefresh` if the message has to be queued
+because the recipient has no connection. -/
+structure ServerData where
+  jsonOk : Bool := false               -- the decode succeeds
+  dtype : String := ""
+  chat : Option Bool := none           -- `none`: member absent or null; `some r`: present, `refresh` = r
+  deriving DecidableEq, Repr
+
 structure MessageMsg where
   recipient : Recipient
   dataNonEmpty : Bool
   dataValid : Bool                     -- the raw `data` member is valid JSON (the decoder does not check)
   data : DataShape
+  sdata : ServerData := {}
   deriving DecidableEq, Repr
 
 structure Common where
@@ -205,6 +217,15 @@ structure Facts where
   single-value type assertion, index expression, write to a possibly-nil map or unguarded dereference
   besides the reviewed ones (`Model/ShapesMedia.lean`). -/
   mediaTablesReviewed : Bool
+  /-- (function, path below a payload decoded again on the recipient's side, conditions): dereferenced
+  without a nil guard (`Generated.ShapesDeferred.payloadDerefs`). -/
+  payloadDerefs : List (String × String × String)
+  /-- (function, `x.<sel>`): uses of the nil result of a failed comma-ok type assertion. -/
+  failedAssertionUses : List (String × String)
+  /-- The tables of the code that handles a server message built from client data (delivery, filtering,
+  queueing for a recipient without connection, flushing on resume) are the reviewed ones
+  (`Model/ShapesDeferred.lean`). -/
+  deferredTablesReviewed : Bool
 
 def Facts.current : Facts :=
   { validation := Generated.ShapesClient.validation,
@@ -222,7 +243,10 @@ def Facts.current : Facts :=
       Generated.ShapesMedia.mediaTypeAssertions == ShapesMedia.reviewedTypeAssertions &&
       Generated.ShapesMedia.mediaIndexExprs == ShapesMedia.reviewedIndexExprs &&
       Generated.ShapesMedia.mediaMapWrites == ShapesMedia.reviewedMapWrites &&
-      Generated.ShapesMedia.mediaDerefs == ShapesMedia.reviewedDerefs }
+      Generated.ShapesMedia.mediaDerefs == ShapesMedia.reviewedDerefs,
+    payloadDerefs := Generated.ShapesDeferred.payloadDerefs,
+    failedAssertionUses := Generated.ShapesClient.failedAssertionUses,
+    deferredTablesReviewed := ShapesDeferred.tablesReviewed }
 
 /-! ## Validation (`CheckValid`), defined over the regenerated table -/
 
@@ -372,16 +396,29 @@ inductive Conn where
   | dead | nosession | session (s : Sess)
   deriving DecidableEq, Repr
 
+/-- The bystander as a *recipient*: what the server does with a message for it depends on this. -/
+structure Rcpt where
+  detached : Bool := false      -- its connection is gone, the session waits to be resumed: messages are queued
+  pendingChat : Bool := false   -- a chat refresh is queued already (`hasPendingChat`)
+  inCall : Bool := false        -- it is in the call of its room (`Room.IsSessionInCall`)
+  hideNames : Bool := false     -- it has the permission `hide-displaynames` (`filterMessage` decodes payloads)
+  deriving DecidableEq, Repr
+
 structure World where
   mcu : Bool
   transient : List (String × String)          -- transient data of the bystander's room
   virt : List (String × RoomRef)              -- virtual sessions of the current sender: (client-chosen id, room)
+  rcpt : Rcpt := {}
   deriving DecidableEq, Repr
 
 structure St where
   world : World
   conn : Conn
   dialoutState : Bool     -- the harness arms a dialout request before every message if the sender is eligible
+  /-- The sender's connection is not a websocket of this server (`*Client`) but one proxied from another
+  node of the cluster (`remoteGrpcClient`): its frames have passed the other node's `ReadPump` and arrive
+  through `Hub.processMessage` with another kind of `HandlerClient`. -/
+  remote : Bool := false
   deriving DecidableEq, Repr
 
 def St.init : St := { world := { mcu := false, transient := [], virt := [] }, conn := .nosession, dialoutState := false }
@@ -460,6 +497,12 @@ def modelHello (m : ClientMessage) : Outcome :=
       | some a =>
         let t := if F.validateBeforeDispatch then effType a else a.atype
         let register (internal : Bool) (u : UserClass) : Outcome :=
+          -- processRegister: `client, ok := c.(*Client)`; only a websocket of this server can register
+          if st.remote then
+            (if F.failedAssertionUses.any (fun d => d.1 = "Hub.processRegister") then
+              .crash "processRegister: method call on the nil result of c.(*Client)"
+             else .ok (errObs "internal_error") st)
+          else
           let s' : Sess :=
             { internal := internal, dialoutFeat := internal && h.featDialout, restrictedUser := decide (u = .restricted), restricted := false,
               anon := !internal && decide (u = .anon), room := .none, fed := false }
@@ -525,8 +568,9 @@ def modelRoom (m : ClientMessage) : Outcome :=
 /-- What is forwarded if the raw payload is not valid JSON: the frame is not well-formed. -/
 def fwdKind (kind : String) (valid : Bool) : String := if valid then kind else "malformed"
 
-/-- Routing of `message` / `control` to the two observers. -/
-def route (kind : String) (rc : Recipient) (hasVirt : Bool) : Obs :=
+/-- Routing of `message` / `control` to the two observers (`inCall`: the bystander is in the call of
+its room; a message to the `call` is discarded by `filterAsyncMessage` of everybody else). -/
+def route (kind : String) (rc : Recipient) (hasVirt : Bool) (inCall : Bool := false) : Obs :=
   -- a detached session of the addressed user / room stores the message (state of that session changes)
   if rc.rtype = "session" then
     match rc.sid with
@@ -536,10 +580,70 @@ def route (kind : String) (rc : Recipient) (hasVirt : Bool) : Obs :=
   else if rc.rtype = "user" then
     (if rc.uid = .by then { bMust := [kind], st := .any } else { st := .any })
   else if rc.rtype = "room" ∨ rc.rtype = "call" then
-    (if s.inBy ∧ rc.rtype = "room" then { bMust := [kind], st := .any } else { st := .any })
+    (if s.inBy ∧ (rc.rtype = "room" ∨ inCall) then { bMust := [kind], st := .any } else { st := .any })
   else {}
 
 def withAmbient (o : Obs) : Obs := if s.seesRoom then { o with sMay := o.sMay ++ ambient } else o
+
+/-! ### The recipient's side of a forwarded `message` / `control` -/
+
+/-- The regenerated table has an unguarded dereference of `path` in `fn` whose conditions hold for a
+payload of type `dtype`. -/
+def payloadUnguarded (fn path dtype : String) : Bool :=
+  F.payloadDerefs.any (fun d => d.1 = fn ∧ d.2.1 = path ∧ (d.2.2 = "" ∨ d.2.2 = "Type=" ++ dtype))
+
+inductive Delivered where
+  | crash (site : String)
+  | dropped                      -- filtered out, or folded into one that is queued already: the recipient sees nothing
+  | sent (r : Rcpt)              -- written to the connection, or queued; the recipient's state afterwards
+  deriving DecidableEq, Repr
+
+/-- `ServerMessage.IsChatRefresh` on a forwarded `message`: decode the payload; `type` must be "chat"
+and the optional `chat` member present. -/
+def isChatRefresh (d : ServerData) : Except String Bool :=
+  if !d.jsonOk then .ok false
+  else match d.chat with
+    | some r => .ok (d.dtype = "chat" && r)
+    | none =>
+      if payloadUnguarded F "ServerMessage.IsChatRefresh" "<@MessageServerMessageData>.Chat" d.dtype then
+        .error "ServerMessage.IsChatRefresh: data.Chat"
+      else .ok false
+
+/-- `ClientSession.SendMessage` for a `message` / `control` built from client data, in the state `r` of
+the recipient: `filterMessage` (with `hide-displaynames` the payload of a `message` is decoded,
+`nickChanged` is dropped), then the connection - or, without one, `storePendingMessage`
+(`IsChatRefresh`: only one chat refresh is kept). -/
+def deliverRcpt (r : Rcpt) (kind : String) (d : ServerData) : Delivered :=
+  if !F.deferredTablesReviewed then
+    .crash "recipient side: a decode / dereference / type assertion / index expression / call that is not a reviewed one"
+  else if kind = "message" ∧ r.hideNames ∧ d.jsonOk ∧ d.chat.isNone ∧
+      payloadUnguarded F "ClientSession.filterMessage" "<@MessageServerMessageData>.Chat" d.dtype then
+    .crash "ClientSession.filterMessage: data.Chat"
+  else if kind = "message" ∧ r.hideNames ∧ d.jsonOk ∧ d.dtype = "nickChanged" then .dropped
+  else if !r.detached then .sent r
+  else if kind = "message" then
+    match isChatRefresh F d with
+    | .error site => .crash site
+    | .ok true => if r.pendingChat then .dropped else .sent { r with pendingChat := true }
+    | .ok false => .sent r
+  else .sent r
+
+/-- What the bystander sees of a forwarded message that `route` addresses to it (`o.bMust ≠ []`):
+nothing if it is dropped; if it is queued the tables change. -/
+def deliver (kind : String) (d : ServerData) (o : Obs) : Outcome :=
+  if o.bMust.isEmpty then .ok o st
+  else
+    match deliverRcpt F st.world.rcpt kind d with
+    | .crash site => .crash site
+    | .dropped => .ok { o with bMust := [] } st
+    | .sent r =>
+      .ok (if st.world.rcpt.detached then { o with st := .chg } else o)
+        { st with world := { st.world with rcpt := r } }
+
+/-- `withAmbient` on the observation of an outcome. -/
+def Outcome.amb (s : Sess) : Outcome → Outcome
+  | .crash site => .crash site
+  | .ok o next => .ok (if s.seesRoom then { o with sMay := o.sMay ++ ambient } else o) next
 
 /-- Media-server work: the reply comes from an external party (and from goroutines of its own). -/
 def mcuObs (rc : Recipient) : Obs :=
@@ -579,8 +683,8 @@ def modelMessage (m : ClientMessage) : Outcome :=
       | .ok =>
         if rc.rtype = "session" ∧ mcuTypes.contains mm.data.dtype then mediaCode F st rc
         else if mm.data.dtype = "sendoffer" then mediaCode F st rc
-        else .ok (withAmbient s (route s (fwdKind "message" mm.dataValid) rc hasVirt)) st
-    else .ok (withAmbient s (route s (fwdKind "message" mm.dataValid) rc hasVirt)) st
+        else (deliver F st "message" mm.sdata (route s (fwdKind "message" mm.dataValid) rc hasVirt st.world.rcpt.inCall)).amb s
+    else (deliver F st "message" mm.sdata (route s (fwdKind "message" mm.dataValid) rc hasVirt st.world.rcpt.inCall)).amb s
 
 /-- `Hub.processControlMsg`. -/
 def modelControl (m : ClientMessage) : Outcome :=
@@ -588,7 +692,8 @@ def modelControl (m : ClientMessage) : Outcome :=
   | none => .crash "processControlMsg: message.Control"
   | some mm =>
     if !s.internal ∧ s.restricted then .ok (withAmbient s {}) st
-    else .ok (withAmbient s (route s (fwdKind "control" mm.dataValid) mm.recipient (!st.world.virt.isEmpty))) st
+    else (deliver F st "control" mm.sdata
+            (route s (fwdKind "control" mm.dataValid) mm.recipient (!st.world.virt.isEmpty) st.world.rcpt.inCall)).amb s
 
 /-- The response handler registered by `BackendServer.startDialout`: the
 extracted dereference table says whether it still touches
@@ -740,6 +845,13 @@ def modelProxy (m : ClientMessage) : Outcome :=
 
 end handlers
 
+/-- A hello that gets as far as the credentials (re)starts the hello timeout of the connection
+(`defer h.startExpectHello(client)`): a websocket is on that list from the moment it connects, a connection
+proxied from another node gets onto it this way - the tables may change even if the hello is refused. -/
+def Outcome.remoteSt (remote : Bool) : Outcome → Outcome
+  | .crash site => .crash site
+  | .ok o next => .ok (if remote ∧ o.st = .same then { o with st := .any } else o) next
+
 def handlerFor (t : String) : String :=
   match F.dispatchTable.lookup t with
   | some h => h
@@ -750,7 +862,7 @@ def dispatchSession (st : St) (s : Sess) (m : ClientMessage) : Outcome :=
   let h := handlerFor F m.mtype
   if h = "processRoom" then modelRoom st s m
   else if h = "processMessageMsg" then modelMessage F st s m
-  else if h = "processControlMsg" then modelControl st s m
+  else if h = "processControlMsg" then modelControl F st s m
   else if h = "processInternalMsg" then modelInternal F st s m
   else if h = "processTransientMsg" then modelTransient st s m
   else if h = "processByeMsg" then modelBye st s m
@@ -775,7 +887,7 @@ def processMessage (st : St) (m : ClientMessage) : Outcome :=
     | .dead => .ok {} st
     | .nosession =>
       if F.preHelloOnlyHello ∧ m.mtype ≠ "hello" then .ok (errObs "hello_expected") st
-      else modelHello F st m
+      else (modelHello F st m).remoteSt st.remote
     | .session s =>
       if s.fed ∧ !F.localTypes.contains m.mtype then modelProxy st m
       else dispatchSession F st s m
@@ -858,6 +970,10 @@ behind `sess.ClientType() == HelloClientTypeVirtual`, which only `VirtualSession
 def knownTypeAssertions : List (String × String) := [
   ("Hub.processControlMsg", "sess.(*VirtualSession)"),
   ("Hub.processMessageMsg", "sess.(*VirtualSession)")]
+
+/-- Uses of the nil result of a failed comma-ok type assertion: none (the one of `processRegister`,
+`client.SendMessage` for a connection that is not a `*Client`, was repaired). -/
+def knownFailedAssertionUses : List (String × String) := []
 
 /-- Index expressions over client-controlled values: a map read, and the last
 byte of a string that was just compared with "". -/
